@@ -47,8 +47,9 @@ def all_files(w):
 
 
 def current_patterns(w):
-    import codelimit.common.Scanner as Scanner
-    pats = list(Scanner.DEFAULT_EXCLUDES)
+    from ..seams import PRISTINE
+    # the built-in list is read as data, once, at import time of the code under test
+    pats = list(PRISTINE["DEFAULT_EXCLUDES"])
     pats += list(w.yml_patterns or [])
     pats += list(w.cli_excludes or [])
     pats += [l for l in (w.gi_patterns or [])]
